@@ -18,8 +18,22 @@ pub mod sync {
     #[verifier::reject_recursive_types(T)]
     pub struct Mutex<T> { t: T }
 }
+pub mod os {
+    pub mod unix { pub mod fs {
+        use vstd::prelude::*;
+        /// st_dev / st_ino etc.: values unconstrained
+        pub trait MetadataExt { fn dev(&self) -> u64; fn ino(&self) -> u64; fn mode(&self) -> u32; fn size(&self) -> u64; }
+        impl MetadataExt for crate::shims::std::fs::Metadata {
+            #[verifier::external_body] fn dev(&self) -> u64 { unimplemented!() }
+            #[verifier::external_body] fn ino(&self) -> u64 { unimplemented!() }
+            #[verifier::external_body] fn mode(&self) -> u32 { unimplemented!() }
+            #[verifier::external_body] fn size(&self) -> u64 { unimplemented!() }
+        }
+    } }
+}
 pub mod collections {
     use vstd::prelude::*;
+    pub use ::std::collections::HashMap;
     /// ASSUMED: a HashSet collected from an iterator keeps the FIRST of any two elements
     /// that are equal under the element's `PartialEq`; its iteration order is unspecified.
     #[verifier::external_body]
